@@ -228,7 +228,7 @@ pub fn run(ctx: &mut Ctx) {
         exh_quick: 3,
         exh_thorough: 4,
         random_quick: 400_000,
-        random_thorough: 20_000_000,
+        random_thorough: 60_000_000,
         extra_subsets: 1,
         both_converters: false,
         alphabet: ALNUM_RICH,
